@@ -45,11 +45,28 @@ def _n(ctx, quick, thorough):
     return quick if ctx.tier == "quick" else thorough
 
 
-def marker_runner(oracle, quick, thorough, rule, explanation, smark_pairs=None):
+C02_THEOREMS = ["C02_and", "C02_or", "C02_empty_any", "C02_normaliser", "C02_parse"]
+MARKER_PROOF_TRUST = [
+    "Coq 8.16.1 kernel; Print Assumptions of Props/C02.v: closed under the global context",
+    "Model/Marker.v is a hand-written, function-for-function model of markers/{base,single,multi,union,empty,any}.py and utils.py (cnf/dnf/intersection/union); "
+    "the tie to the code is the S-mark correspondence stream (parse/&/|/only/exclude results compared STRUCTURALLY, evaluate compared on environments), evaluated inside Coq with vm_compute",
+    "the merge of two version-like atoms (python_version / python_full_version / platform_release: _merge_single_markers through the specifier algebra and from_specifier) is a PARAMETER `vmerge` "
+    "of the model; the theorems assume `vmerge_sound` (a merged atom evaluates as the conjunction / disjunction of the two atoms); the stream S-vmerge-rows checks that hypothesis on every row the "
+    "implementation produced during the run, and the C11 check decides the specifier view it rests on",
+    "Python set iteration order is the parameter `perm`; theorems hold for every permutation; fuel: theorems hold for every fuel (results `Raise Unfueled` excluded)",
+    "environments: the theorems quantify over every model environment (menv: string variables, extras set, truth of each version-like atom); evaluate() of an atom is modelled by atom_eval and compared by MCEval cases",
+]
+
+
+def marker_runner(oracle, quick, thorough, rule, explanation, smark_pairs=None, proof=None):
     def run(ctx: Ctx):
         ctx.level = "other"
         ctx.trusted_base = MARKER_TRUST
         ctx.coverage["explanation"] = explanation
+        if proof:
+            ctx.level = "proof"
+            ctx.trusted_base = MARKER_PROOF_TRUST + MARKER_TRUST
+            props_spec.proof_step(ctx, proof[0], proof[1], extra_targets=["Model/CorrMarker.v"])
         if smark_pairs:
             # the tie between Model/Marker.v and dep_logic.markers (structure of parse/&/|/only/exclude results, evaluation)
             import coqrun
@@ -68,11 +85,13 @@ GEN_RULE = ("marker texts from a grammar over well-defined atoms (string variabl
             "python_full_version / platform_release with comparison, ~=, wildcards, in/not in lists; extra ==/!=; 15-20% literal-on-"
             "the-left), combined by and/or to depth <= 3 with a bias to repeat a variable; environments separate every literal "
             "occurring in the operands; distinct = (operation, operand classes, result class, shared variables)")
+C02_EXPL = ("theorems C02_and / C02_or / C02_empty_any / C02_parse / C02_normaliser over Model/Marker.v (every fuel, every set order, every sound version-atom merge); "
+            "the S-mark stream ties the model to the code, S-vmerge-rows checks the merge hypothesis on the implementation, and the direct oracle searches for a failing input end to end")
 PENDING = ("the Coq model of the marker normaliser is not finished: this check currently decides the property only by the direct "
            "oracle on the implementation; see DESIGN.md section 5 for the theorem it will be replaced by")
 
 REGISTRY.update({
-    "C02": marker_runner(pm.oracle_c02, 500, 8000, GEN_RULE, PENDING, smark_pairs=150),
+    "C02": marker_runner(pm.oracle_c02, 500, 8000, GEN_RULE, C02_EXPL, smark_pairs=150, proof=("Props/C02.v", C02_THEOREMS)),
     "C03": marker_runner(pm.oracle_c03, 700, 10000, GEN_RULE, PENDING),
     "C07": marker_runner(pm.oracle_c07, 300, 5000, GEN_RULE, PENDING),
     "C10": marker_runner(pm.oracle_c10, 250, 4000, "random histories of parse/&/| over key-equal spelling families followed by a probe; warm result vs result after cache_clear()", PENDING),
